@@ -166,13 +166,17 @@ class FPCoreContext:
                 if ctx.nmin == -1:
                     return FPCoreContext(precision='integer', round=rm)
                 else:
-                    return FPCoreContext(n=ctx.nmin, round=rm)
+                    # no FPCore precision says "every multiple of 2**(nmin + 1)":
+                    # a bare `:n` property is ignored by every evaluator (and by
+                    # `to_context`), which would drop the rounding silently
+                    raise RuntimeError(f'Cannot convert to an FPCore context: {ctx} (only `nmin=-1`, the integers, has an FPCore precision)')
             case FixedContext():
                 if not ctx.signed:
                     raise RuntimeError('Cannot convert unsigned FixedContext to an FPCore context')
                 rm = _round_mode_from_fpc(ctx.rm)
                 of = _overflow_mode_from_fpc(ctx.overflow)
-                return FPCoreContext(precision=['fixed', ctx.nbits, ctx.scale], round=rm, overflow=of)
+                # FPCore writes `(fixed scale nbits)`
+                return FPCoreContext(precision=['fixed', ctx.scale, ctx.nbits], round=rm, overflow=of)
             case _ if ctx is REAL:
                 return FPCoreContext(precision='real')
             case _:
@@ -203,8 +207,8 @@ class FPCoreContext:
                 case 'binary16':
                     return FP16.with_params(rm=_round_mode_to_fpy(rnd))
                 # fixed-point context
-                case ['fixed', nbits, scale]:
-                    return FixedContext(True, int(nbits), int(scale), _round_mode_to_fpy(rnd), _overflow_mode_to_fpc(ov))
+                case ['fixed', scale, nbits]:
+                    return FixedContext(True, int(scale), int(nbits), _round_mode_to_fpy(rnd), _overflow_mode_to_fpc(ov))
                 # integer context
                 case 'integer':
                     return INTEGER.with_params(rm=_round_mode_to_fpy(rnd))
